@@ -81,6 +81,24 @@ fn spread_cases() -> Vec<Case> {
             }
         }
     }
+    // the same named fragment spread twice in one operation: every spread site is checked against its own scope
+    for (f1, p1) in TYPES {
+        for (f2, p2) in TYPES {
+            if f1 == f2 {
+                continue;
+            }
+            for (_, cond) in [("k", "K"), ("j", "J"), ("u", "U")] {
+                let ok = overlap(p1, cond) && overlap(p2, cond);
+                v.push(Case {
+                    family: "fragment spread applicability",
+                    label: format!("...F (on {cond}) inside {p1} and again inside {p2}"),
+                    doc: format!("query {{ {f1} {{ ...F }} {f2} {{ ...F }} }}\nfragment F on {cond} {{ __typename }}"),
+                    expect_valid: ok,
+                    why: if ok { "both spreads are applicable".into() } else { format!("{cond} can never apply inside {}", if overlap(p1, cond) { p2 } else { p1 }) },
+                });
+            }
+        }
+    }
     v
 }
 
